@@ -423,6 +423,12 @@ impl<'a> Label<'a> {
     }
 }
 
+impl<'a> AsRef<[u8]> for Label<'a> {
+    fn as_ref(&self) -> &[u8] {
+        &self.data
+    }
+}
+
 impl<'a> Display for Label<'a> {
     fn fmt(&self, f: &mut std::fmt::Formatter<'_>) -> std::fmt::Result {
         // labels received from the network can hold any bytes,
